@@ -405,6 +405,10 @@ class IO:
         except StepTimeout:
             raise
         except Exception as e:  # noqa: BLE001
+            if sim.active("C14"):
+                chan = "internal" if fmt == "internal" else ("csv" if fmt.startswith("csv") else "geff")
+                sim.violate("C14", f"C14.{chan}.raises", f"restart from {fmt}: save or re-import raised {type(e).__name__}: {str(e)[:200]}", op, out["tags"], type(e).__name__)
+                return out
             sim.guard("restart_failed", f"{fmt} {type(e).__name__} {str(e)[:120]}")
         if sim.active("C14"):
             chan = "internal" if fmt == "internal" else ("csv" if fmt.startswith("csv") else "geff")
@@ -480,6 +484,14 @@ def _num_equal(a, b) -> bool:
 
 def compare_tracks(a, b, chan: str, fmt: str, with_pos: bool = True) -> list:
     """C14: a = original, b = re-imported. Returns list of (oracle, message)."""
+    try:
+        return _compare_tracks(a, b, chan, fmt, with_pos)
+    except (KeyError, TypeError, ValueError, IndexError) as e:
+        # reading a required value from the re-imported object failed: it is not "the same"
+        return [(f"C14.{chan}.attrs", f"reading the re-imported tracks raised {type(e).__name__}: {e}")]
+
+
+def _compare_tracks(a, b, chan: str, fmt: str, with_pos: bool = True) -> list:
     pre = f"C14.{chan}"
     ga, gb = a.graph, b.graph
     if set(ga.nodes) != set(gb.nodes):
